@@ -158,6 +158,9 @@ class CorrelationFunction(DFunction, UnitsManaged):
                 #
                 for prms in self.params:
                     
+                    # every component is built according to its own type
+                    ftype = prms["ftype"]
+                    
 #                    try:
 #                        ftype = params["ftype"]
 #                        
